@@ -52,6 +52,7 @@ type Cluster struct {
 	StallAfter   time.Duration // default: 10 s, at most 2/3 of SettleBudget
 
 	activity         int64
+	restarts         int
 	seq              int64
 	unreachableCalls int64
 	mu               sync.Mutex
@@ -225,6 +226,24 @@ func (cl *Cluster) DeliverAllGossip() int {
 		}
 	}
 	return k
+}
+
+// AntiEntropy: a node that came back with empty state has missed what was gossiped to its first
+// life (a broadcast is sent to a member a bounded number of times, and the sender does not know
+// that the member lost its memory). memberlist repairs that with its periodic push/pull exchange
+// between random pairs of members; "all gossip delivered" therefore includes one exchange between
+// every pair of live nodes once a node has been restarted. A no-op in clusters without restarts.
+func (cl *Cluster) AntiEntropy() {
+	if cl.restarts == 0 {
+		return
+	}
+	for i, a := range cl.Nodes {
+		for _, b := range cl.Nodes[i+1:] {
+			if !a.Down && !b.Down {
+				cl.FullSync(a, b)
+			}
+		}
+	}
 }
 
 // FullSync exchanges full-state snapshots between two nodes (push/pull).
